@@ -9,20 +9,34 @@
 #![allow(unused_imports, dead_code)]
 
 pub mod model;
+pub mod ms;
+pub mod spec;
 pub mod src;
 
 pub mod c00;
 pub mod c01;
+pub mod c02;
+pub mod c03;
+pub mod c08;
+pub mod c11;
+pub mod c12;
+pub mod c13;
 pub mod c17;
 
 /// Dispatch a native replay by harness name.
 pub fn replay(name: &str, s: &mut src::ReplaySrc) -> bool {
-    c00::replay(name, s) || c01::replay(name, s) || c17::replay(name, s)
+    c00::replay(name, s) || c01::replay(name, s) || c02::replay(name, s) || c03::replay(name, s) || c08::replay(name, s) || c11::replay(name, s) || c12::replay(name, s) || c13::replay(name, s) || c17::replay(name, s)
 }
 
 pub fn all_names() -> Vec<&'static str> {
     let mut v = Vec::new();
     v.extend_from_slice(c01::NAMES);
+    v.extend_from_slice(c02::NAMES);
+    v.extend_from_slice(c03::NAMES);
+    v.extend_from_slice(c08::NAMES);
+    v.extend_from_slice(c11::NAMES);
+    v.extend_from_slice(c12::NAMES);
+    v.extend_from_slice(c13::NAMES);
     v.extend_from_slice(c17::NAMES);
     v
 }
